@@ -5,6 +5,7 @@ out=/verif/seeded/MATRIX.txt
 for d in /verif/seeded/*/; do
   n=$(basename $d)
   test -f $d/patch.diff || continue
+  case $n in benign-*) continue;; esac
   p=$(echo $n | sed 's/-.*//')
   if grep -q '"status": "obsolete' $d/meta.json 2>/dev/null; then echo "seed=$n obsolete (see meta.json)" >> $out.tmp; continue; fi
   /verif/harness/seedtest.sh $n $p >> $out.tmp 2>&1
